@@ -1351,6 +1351,9 @@ func callBuiltin(caller *frame, callpos token.Pos, fn *ssa.Builtin, args []value
 	case "delete":
 		m := args[0].(*smap)
 		if m != nil {
+			if caller.p.thr != nil {
+				caller.p.raceAccess(caller, m, true)
+			}
 			m.delete(caller, args[1])
 		}
 		return nil
